@@ -9,7 +9,7 @@ use serde_json::{json, Value};
 pub const DEF: PropDef = PropDef {
     id: "C18",
     level: "exploration",
-    rule: "every assignment form (put..into, let..be, compound let, `T is <expr>`, `T is <poetic words>`, `T says`, rock T with E, rock T with a list, rock T like, rock T) x 5 targets (simple / common / proper name, pronoun, subscript) x 39 right-hand sides (0, 5, 10, 100, 105.25, 0.5, 1e21, 0.1 plus 0.2, a folding list, 0 - 5, -5, 1 over 0, 0 over 0, strings: empty, spaces, punctuation, line break, keyword-empty; non-constants: variable, call, roll, boolean, null, mixed, string concatenation, not) x 9 positions (top level, if, else, loop, function, depth 3, after a multi-line comment, after a two-line string, last line without newline); oracle: a diagnostic is due exactly when the reference predicate (ordinary expression folding to one numeric constant, or plain string literal for assignments, not compound) holds; its line is the statement's line; it quotes the value and (plain variables) the target; the starred words of the suggestion spell the digits of the value; instantiating the stars gives a line that parses, runs and leaves the target with that value; values without poetic spelling get no starred / says suggestion; linting never panics; non-trivial = all cases; distinct = distinct text",
+    rule: "every assignment form (put..into, let..be, compound let, `T is <expr>`, `T is <poetic words>`, `T says`, rock T with E, rock T with a list, rock T like, rock T) x 5 targets (simple / common / proper name, pronoun, subscript) x 51 right-hand sides (0, 5, 10, 100, 105.25, 0.5, 1e21, 0.1 plus 0.2, a folding list, 0 - 5, -5, 1 over 0, 0 over 0, strings: empty, spaces, punctuation, a line break in the middle / at the end / at the start / alone / doubled, blanks at either end, tab, non-ASCII, token look-alikes, keyword-empty; non-constants: variable, call, roll, boolean, null, mixed, string concatenation, not) x 9 positions (top level, if, else, loop, function, depth 3, after a multi-line comment, after a two-line string, last line without newline); oracle: a diagnostic is due exactly when the reference predicate (ordinary expression folding to one numeric constant, or plain string literal for assignments, not compound) holds; its line is the statement's line; it quotes the value and (plain variables) the target; the starred words of the suggestion spell the digits of the value; instantiating the stars gives a line that parses, runs and leaves the target with that value; values without poetic spelling get no starred / says suggestion; linting never panics; non-trivial = all cases; distinct = distinct text",
     assumptions: &["reference predicate and constant value computed on the position-free tree with the reference interpreter", "round-trip tolerance: 4 ulp up to 7 digits, 64 ulp for longer numerals (the rounding of poetic literals)"],
     build,
     exhaustive: true,
@@ -20,6 +20,8 @@ pub const TARGETS: &[&str] = &["x", "the zed", "Zed Yod", "it", "x at 0"];
 pub const RHS: &[&str] = &[
     "0", "5", "10", "100", "105.25", "0.5", "1e21", "0.1 plus 0.2", "2 times 3, 4", "0 - 5", "-5", "-0", "0 times -2", "0 over -5", "0.0", "1 over 0", "0 over 0", "-1 over 0", "1e308 times 10", "1 over 3", "123456789012345678", "0.1", "1e16", "10 without 1, 2", "100 over 5, 2", "2 times 3, 4 plus 1", "\"\"", "\"a b\"", "\"a, b! (c)\"", "\"a\nb\"", "empty", "y",
     "fun taking 1", "roll y", "true", "null", "1 plus y", "\"a\" plus \"b\"", "not 1",
+    // strings: a line break at the end, at the start, alone, doubled; blanks at either end; a tab; non-ASCII; look-alikes of other tokens
+    "\"a\n\"", "\"\n\"", "\"\na\"", "\"a\n\nb\"", "\" a\"", "\"a \"", "\"a\tb\"", "\"é😀\"", "\"5\"", "\"says x\"", "\"it's\"", "\"true\"",
 ];
 /// (prefix, suffix, final newline)
 pub const CONTEXTS: &[(&str, &str, bool)] = &[
@@ -46,7 +48,7 @@ fn build(_tier: Tier) -> Box<dyn Check> {
     Box::new(C18 { cases: f.product(&t, |f, t| (f, t)).product(&r, |(f, t), r| (f, t, r)).product(&c, |(f, t, r), c| (f, t, r, c)) })
 }
 
-fn fill(form: &str, t: &str, e: &str) -> String {
+pub fn fill(form: &str, t: &str, e: &str) -> String {
     let mut s = String::new();
     for ch in form.chars() {
         match ch {
